@@ -57,7 +57,7 @@ var c03Undecided = []TV{{K: "nil*Item"}, {K: "nilslice"}, {K: "nilmap"},
 var c03UniformOnly = []TV{{K: "string", S: "false"}, {K: "string", S: "true"}, {K: "string", S: "FALSE"}, {K: "*bool"}}
 
 // incmember / shortmember: the chain members are include tags / shorthand component tags themselves (a conditional include)
-var c03Placements = []string{"top", "nested", "for", "template", "ws", "comment", "adjacent", "beforefor", "table", "component", "slot", "layout", "incmember", "shortmember", "slotmember", "tvhtml", "elsefor", "afteremptyfor"}
+var c03Placements = []string{"top", "nested", "for", "template", "ws", "comment", "adjacent", "beforefor", "table", "component", "slot", "layout", "incmember", "shortmember", "slotmember", "tvhtml", "elsefor", "afteremptyfor", "comptop"}
 
 type c03 struct{}
 
@@ -74,7 +74,7 @@ func init() {
 
 func (p *c03) ID() string { return "C03" }
 func (p *c03) Rule() string {
-	return "chain part: every shape v-if + k x v-else-if (k<=2 quick, k<=3 thorough) with/without v-else x every truth assignment x 18 placements (the chain directly after a loop that produces nothing, the v-else-if / v-else members being loops themselves, the chain members being include tags / shorthand component tags / <slot> elements of a component / <template v-html> tags themselves, top, nested, inside v-for with per-item conditions, on <template>, whitespace/comment between members, two adjacent chains, chain directly before a v-for sibling, inside table rows, inside an included component, inside slot content, inside a layout) x condition form (bare, negated) x a rotation through all Go value kinds realising each truth value; lazy part: every chain of 1-3 v-else-if (with/without v-else) x every position of the first truthy member that is followed by a v-else-if x later conditions that call a function returning an error / a counting function x {top, v-for, <template>, component}: the taken branch is rendered and the render does not fail; uniform part: every value of the truthy/falsy/undecided catalogue (all numeric widths, strings incl. \"0\" and \"false\", nil, missing, pointers, slices, maps, structs) x {v, o.v, v as the item of a loop whose variable shadows a truthy outer v, a variable named title / json like a built-in template function, a struct field by JSON tag, a dashed map key, a numeric dotted step} read in v-if, v-else-if, v-show, :attr, :class object and their negations in v-if/v-else-if/v-show; non-trivial = every generated case (each has a condition decided by data); distinct by (shape, placement, form, values)"
+	return "chain part: every shape v-if + k x v-else-if (k<=2 quick, k<=3 thorough) with/without v-else x every truth assignment x 19 placements (the chain of <template> members heading an included component file, the chain directly after a loop that produces nothing, the v-else-if / v-else members being loops themselves, the chain members being include tags / shorthand component tags / <slot> elements of a component / <template v-html> tags themselves, top, nested, inside v-for with per-item conditions, on <template>, whitespace/comment between members, two adjacent chains, chain directly before a v-for sibling, inside table rows, inside an included component, inside slot content, inside a layout) x condition form (bare, negated) x a rotation through all Go value kinds realising each truth value; lazy part: every chain of 1-3 v-else-if (with/without v-else) x every position of the first truthy member that is followed by a v-else-if x later conditions that call a function returning an error / a counting function x {top, v-for, <template>, component}: the taken branch is rendered and the render does not fail; uniform part: every value of the truthy/falsy/undecided catalogue (all numeric widths, strings incl. \"0\" and \"false\", nil, missing, pointers, slices, maps, structs) x {v, o.v, v as the item of a loop whose variable shadows a truthy outer v, a variable named title / json like a built-in template function, a struct field by JSON tag, a dashed map key, a numeric dotted step} read in v-if, v-else-if, v-show, :attr, :class object and their negations in v-if/v-else-if/v-show; non-trivial = every generated case (each has a condition decided by data); distinct by (shape, placement, form, values)"
 }
 
 func (p *c03) maxK(ctx core.Ctx) int { return ctx.Pick(2, 3) }
@@ -242,7 +242,7 @@ func (p *c03) Exec(ctx core.Ctx, cc any) core.Obs {
 	withComponents := false
 	tag := "p"
 	switch c.Placement {
-	case "top", "nested", "ws", "comment", "template", "beforefor", "table", "memberfor", "component", "slot", "layout", "incmember", "shortmember", "slotmember", "tvhtml", "elsefor", "afteremptyfor":
+	case "top", "nested", "ws", "comment", "template", "beforefor", "table", "memberfor", "component", "slot", "layout", "incmember", "shortmember", "slotmember", "tvhtml", "elsefor", "afteremptyfor", "comptop":
 		c03Data(c.Vals, "c", data)
 		sep := ""
 		switch c.Placement {
@@ -254,8 +254,9 @@ func (p *c03) Exec(ctx core.Ctx, cc any) core.Obs {
 		if c.Placement == "table" {
 			tag = "tr"
 		}
-		chain := c03Chain(c, "b", "c", tag, sep, c.Placement == "template")
-		exp, _ := c03Expect(c, c.Vals, "b", c.Placement == "template")
+		tmplMembers := c.Placement == "template" || c.Placement == "comptop"
+		chain := c03Chain(c, "b", "c", tag, sep, tmplMembers)
+		exp, _ := c03Expect(c, c.Vals, "b", tmplMembers)
 		if c.Placement == "elsefor" {
 			// the v-else-if / v-else members are loops themselves: the chosen one renders one instance per item
 			data["two"] = []any{1, 2}
@@ -329,6 +330,9 @@ func (p *c03) Exec(ctx core.Ctx, cc any) core.Obs {
 			files = map[string]string{"page.vuego": `<section data-m="wrap">` + pre + re.ReplaceAllString(chain, repl) + post + `</section>`, "components/MBox.vuego": `<p :data-m="mk">x</p>`}
 		case "component":
 			files = map[string]string{"page.vuego": `<template include="c.vuego"></template>`, "c.vuego": `<section data-m="wrap">` + pre + chain + post + `</section>`}
+		case "comptop":
+			// the chain of <template> members is the very first thing in the component file
+			files = map[string]string{"page.vuego": `<section data-m="wrap">` + pre + `<template include="c.vuego"></template></section>`, "c.vuego": chain + post}
 		case "slot":
 			files = map[string]string{"page.vuego": `<template include="c.vuego"><template v-slot:body>` + pre + chain + post + `</template></template>`, "c.vuego": `<section data-m="wrap"><slot name="body">fb</slot></section>`}
 		case "layout":
